@@ -63,8 +63,12 @@ PLANS = {
     "C20": plan("one evaluation = one serialized execution in which 1-2 send_with_async calls are kept suspended (setter future Pending behind a harness gate) until every other thread finished its script "
                 "and every consumer received everything the others got accepted; other threads: 0-2 producers (send, send_with, send_with_async, reserve+try_send_reserved), a length-query thread, polling "
                 "consumers, plus operations of the suspended thread itself; 10 channel kinds (all that implement send_with_async); verdict = conductor stall detection (every runnable thread has "
-                "spun >= 600 times in a retry loop / performed >= 600 unproductive attempts) + delivery of everything accepted; non-trivial = a setter was really suspended",
-                [ser(25)], [ser(240), ser(80, flavor="checked")], 500, 5000,
+                "spun >= 600 times in a retry loop / performed >= 600 unproductive attempts) + delivery of everything accepted; non-trivial = a setter was really suspended; "
+                "driven lane (harness workload C04 with entry=async_gated): the first producer's send_with_async stays suspended until every consumer -- minimal executors that park on Pending -- has drained what was "
+                "pending and parked and every other producer has finished; it then completes, and at exact quiescence its event (and every other accepted one) must have been delivered: 'when the suspended send finally "
+                "completes, its event is delivered as well' to a stream that nobody else will wake (kinds: those implementing send_with_async minus the two of C20-D9 and the four atomic-ring kinds of C04-D3/D10)",
+                [ser(25), dict(flavor="fast", lane="ser", secs=8, workload="C04", args=["--set", "entry=async_gated"])],
+                [ser(240), ser(80, flavor="checked"), dict(flavor="fast", lane="ser", secs=100, workload="C04", args=["--set", "entry=async_gated"]), dict(flavor="checked", lane="ser", secs=40, workload="C04", args=["--set", "entry=async_gated"])], 500, 5000,
                 ["'for however long' is restated as: suspended until everybody else has finished (a finite run cannot observe more)", "stall threshold K=600 consecutive unproductive steps per thread"]),
     "C13": plan("one evaluation = one concurrent history of 2-4 threads (alloc_ref / alloc_with, hold, dealloc_id / dealloc_ref, exhaust-until-None and refill bursts) on an OgreArrayPoolAllocator "
                 "over either free-list ring, POOL_SIZE in {2,4,8}, free-list sequence counters starting at 0, next to the 32-bit wrap or anywhere; online ownership-table monitor (one atomic per slot, "
